@@ -7,11 +7,17 @@ EXTENDS Naturals, Sequences, FiniteSets, TLC, Json
 CONSTANTS MaxHist, EmitAt
 
 None == [none |-> TRUE]
-NameSpellings == {"A", "a", "b"}
+NameSpellingsAll == {"A", "a", "b"}
+NameSpellings == NameSpellingsAll
+NameSpellingsDeep == {"a"}
 LowerN(n) == CASE n = "A" -> "a" [] OTHER -> n
 Keys == {LowerN(n) : n \in NameSpellings} \cup {"admin"}
 Pws == {"p1", "p2"}
-Pulls == {"", "/a/*"}
+PullsAll == {"", "/a/*"}
+Pulls == PullsAll
+PullsDeep == {""}
+Admins == BOOLEAN
+AdminsDeep == {FALSE}
 
 (* an administrator with an empty right gets '*' (C16) - the stored right is
    compared modulo that                                                       *)
@@ -47,7 +53,7 @@ Restart ==
 
 Init == tab = Default /\ disk = Default /\ hist = <<>>
 Next == /\ Len(hist) < MaxHist
-        /\ \/ \E n \in NameSpellings, pw \in Pws, admin \in BOOLEAN, pull \in Pulls, upd \in BOOLEAN : Save(n, pw, admin, pull, upd)
+        /\ \/ \E n \in NameSpellings, pw \in Pws, admin \in Admins, pull \in Pulls, upd \in BOOLEAN : Save(n, pw, admin, pull, upd)
            \/ \E n \in NameSpellings \cup {"admin"} : Del(n)
            \/ Flush
            \/ Restart
